@@ -640,6 +640,7 @@ def class_attr(ip, cls, attr):
             c = list(owner.class_assigns).index(attr) + 1
         if isinstance(c, int) and not isinstance(c, bool):
             v = EnumVal(c, owner.name + '.' + attr)
+            v.owner = owner
         elif isinstance(c, str):
             v = StrEnumVal(c, owner.name + '.' + attr)
     if isinstance(v, (E, Obj, list, tuple, dict)):
@@ -792,6 +793,10 @@ def getattr_(ip, base, attr, node=None):
             return int(base)
         if attr == 'name':
             return base.name
+        own = getattr(base, 'owner', None)
+        m = ip.index.find_method(own, attr) if own is not None else None
+        if m:                                  # a method the enum class defines (`USBPacketID.DATA0.byte()`)
+            return FuncRef(m[1], m[0].mod, closure=None, self_obj=base, cls=m[0], name=attr)
     if isinstance(base, Unknown):
         return Unknown(base.src + '.' + attr)
     if isinstance(base, Stmt):
